@@ -121,7 +121,16 @@ pub fn run_into(ctx: &Ctx, col: &mut Collector, with_lines: bool) -> Result<()> 
 			match guarded(|| rt.block_on(get_reader(&pstr))) {
 				Err(m) => viol.push(V { kind: "open-panic".into(), input: desc.clone(), detail: m }),
 				Ok(Err(e)) => viol.push(V { kind: "valid-container-rejected".into(), input: desc.clone(), detail: format!("{e:#}") }),
-				Ok(Ok(reader)) => rtp.verify(&desc, if container == "versatiles" { "versatiles-indep" } else { container }, reader.as_ref(), &tiles, &pyramid, format, comp, None, &mut rng, &mut viol, &mut stats),
+				Ok(Ok(reader)) => { rtp.verify(&desc, if container == "versatiles" { "versatiles-indep" } else { container }, reader.as_ref(), &tiles, &pyramid, format, comp, None, &mut rng, &mut viol, &mut stats);
+					// PMTiles: coordinates whose tile id lies a multiple of 2^32 (2^16, 2^8) behind a stored tile's id are deep tiles
+					// nobody encoded: the lookup must give nothing (unless that coordinate happens to be stored)
+					if container == "pmtiles" { let mut ks: Vec<_> = tiles.keys().cloned().collect(); ks.sort(); for (z, x, y) in ks.into_iter().take(40) { for k in [1u64 << 32, 2 << 32, 1 << 16, 1 << 8] {
+						let (fz, fx, fy) = indep::id_tile(indep::tile_id(z, x, y) + k); if fz > 31 || tiles.contains_key(&(fz, fx, fy)) { continue; }
+						// inside a run the neighbouring ids are stored tiles; only ids outside every run are probed
+						if tiles.keys().any(|(tz, tx, ty)| { let i = indep::tile_id(*tz, *tx, *ty); i == indep::tile_id(fz, fx, fy) }) { continue; }
+						*stats.entry("pm_far_lookups".into()).or_insert(0) += 1;
+						match guarded(|| rt.block_on(reader.get_tile_data(&TileCoord3 { x: fx, y: fy, z: fz }))) { Ok(Ok(None)) => {} Ok(Ok(Some(b))) => { viol.push(V { kind: "lookup".into(), input: desc.clone(), detail: format!("tile {fz}/{fx}/{fy} (tile id {} = id of stored {z}/{x}/{y} + {k}) was never encoded, the reader returns {} bytes", indep::tile_id(fz, fx, fy), b.len()) }); break; } _ => {} } } } }
+				}
 			}
 			col.spec_cases += 1;
 			if container == "dir" { let _ = std::fs::remove_dir_all(&path); } else { let _ = std::fs::remove_file(&path); }
